@@ -65,6 +65,13 @@ def gen_bool(rng, d):
     if d == 0 or rng.random() < 0.2:
         return rng.choice(["True", "False"])
     k = rng.random()
+    if k < 0.12:
+        # numerically equal Int and Float operands (the comparison arms for mixed operands are separate code)
+        n = rng.choice([0, 1, 2, 7, -1, -2, -7])
+        a, b = (str(n) if n >= 0 else f"({n})"), (f"{abs(n)}.0" if n >= 0 else f"(-{abs(n)}.0)")
+        if rng.random() < 0.5:
+            a, b = b, a
+        return f"({a} {rng.choice(['<', '<=', '>', '>='])} {b})"
     if k < 0.55:
         op = rng.choice(["==", "!=", "<", "<=", ">", ">="])
         fl = rng.random() < 0.25 and op not in ("==", "!=")
